@@ -7,6 +7,7 @@ package main
 // `%x.convertsToT()`; compared with the Lean model and checked against the laws directly.
 
 import (
+	"regexp"
 	"fmt"
 	"strings"
 	"time"
@@ -104,7 +105,7 @@ func c13Strings(c *Ctx) []string {
 		"2020-01-01T10:30:00Z", "2020-01-01T10:30:00z", "2020-01-01T10:30:00+05:30", "2020-01-01T10:30:00-11:00", "2020-01-01T10:30:00-00:00", "2020-01-01T10:30:00+00:00", "2020-01-01T10:30:00+24:60", "2020-01-01T10:30:00+25:00", "2020-01-01T10:30:00+05:61",
 		"2020-01-01T10:30:00+0530", "2020-01-01T10:30:00+05", "2020-01-01T10:30:00.000Z", "2020-01-01T10:30:00.000+05:30", "2020-01-01T10:30:00.5Z", "2020-01-01T10:30:00.123456+05:30", "2020-01-01T10:30Z", "2020-01-01T10:30+05:30", "2020-01-01T10Z", "2020-01-01T10+05:30",
 		"2020-01-01T10:30:00 Z", "2020-01-01 10:30:00", "2020-01-01t10:30:00", "2020-02-30T10:30:00Z", "2020-01-01T10:30:00Zx",
-		"24:00", "23:59", "23:59:59", "23:59:59.999", "23:59:59.9999", "23:59:60", "00:00:00.000", "5:04", "10", "1", "10:5", "T10:00", "@T10:00", "@T10", "10:00:00,5", "10:00:00.+12", "10:00Z", "10:00:00+01:00",
+		"24:00", "23:59", "23:59:59", "23:59:59.999", "23:59:59.9999", "23:59:60", "00:00:00.000", "5:04", "10", "1", "10:5", "T10:00", "@T10:00", "@T10", "TT10", "@10:30", "T@T10:30:00.000", "@@T10", "T10:30:00", "@T@T10", "@2020-01-01T10:30:00Z", "@@2020", "T2020", "@T2020-01-01", "10:00:00,5", "10:00:00.+12", "10:00Z", "10:00:00+01:00",
 		"5 'mg'", "5 mg", "5mg", "5'mg'", "5  'mg'", "5\t'mg'", "5 \n'mg'", "5 mg/dL", "5 'mg/dL'", "+5.0 'a b'", "5 ''", "5 'mg' x", "1.5e3 'mg'", " 5 'mg'", "5 'mg' ", "5 days", "5 day", "5.5 years", "5.'mg'", "5. 'mg'", "-5.25 '1'", "5 '", "5 'a'b'", "5 'é'", "5 é", "100           km", "5 kg m", "5 '  '", "٥ 'mg'",
 	}
 	// generated renderings: every layout x values x offsets x fraction digits
@@ -336,6 +337,21 @@ func runC13(c *Ctx) {
 			}
 			c.Law(toOut != "err" && toOut != "panic" && toOut != "ok:many", failClass, "toT() on an unconvertible item is empty, not an error", in, canonOutcome(oTo, nil))
 			c.Law(cvtOut != "err", "C13/converts-fails", "convertsToT() always answers", in, canonOutcome(oCvt, nil))
+			// a String converts to a date / time only if it has the shape of one (an independent, deliberately
+			// permissive description of the accepted texts: optional '@' / '@T' marker, digit groups, offset)
+			if str, isStr := x.(system.String); isStr && val != nil {
+				if re, ok := temporalShapes[t]; ok {
+					c.Law(re.MatchString(string(str)), "C13/string-shape", "a String that is not a date / time text does not convert to one", in, toOut)
+				}
+			}
+			// number, white space, a unit in quotes: the quantity has that number and exactly the text between the quotes as its unit
+			if str, isStr := x.(system.String); isStr && val != nil && t == "Quantity" {
+				if m := quotedQuantity.FindStringSubmatch(string(str)); m != nil {
+					q, isQ := val.(system.Quantity)
+					want, err := system.ParseQuantity(m[1], m[2])
+					c.Law(isQ && err == nil && q.String() == want.String(), "C13/quantity-quoted-unit", "number, white space and a quoted unit convert to the quantity with that number and that unit", in, toOut)
+				}
+			}
 			// L1: convertsTo iff non-empty
 			if cvtOut != "err" && toOut != "err" && toOut != "panic" {
 				class := "C13/converts-iff"
@@ -429,3 +445,13 @@ func isLetters(s string) bool {
 }
 
 var _ = strings.TrimSpace
+
+// (Go's time.Parse, which the implementation relies on, also takes a one-digit hour, a comma before the
+// fraction and a signed fraction; the model reproduces that and the shapes allow it)
+var temporalShapes = map[string]*regexp.Regexp{
+	"Time":     regexp.MustCompile(`^(@T)?\d{1,2}(:\d\d(:\d\d([.,][+-]?\d+)?)?)?$`),
+	"Date":     regexp.MustCompile(`^@?\d{4}(-\d\d(-\d\d)?)?$`),
+	"DateTime": regexp.MustCompile(`^@?\d{4}(-\d\d(-\d\d)?)?(T(\d{1,2}(:\d\d(:\d\d([.,][+-]?\d+)?)?)?)?(Z|[+-]\d\d:\d\d)?)?$`),
+}
+
+var quotedQuantity = regexp.MustCompile(`^([+-]?\d+(?:\.\d+)?)\s*'([^']+)'$`)
